@@ -4,27 +4,33 @@ Every run cuts from the CURRENT tree (Simbody/src/Force_LinearBushing.cpp, Rotat
   * LinearBushingImpl::ensurePositionCacheValid / ensureVelocityCacheValid / ensureForceCacheValid /
     ensurePotentialEnergyValid / calcForce / calcPotentialEnergy / realizeAcceleration,
   * the one-line State plumbing members of the class (get/upd/is/mark for the four cache entries and the
-    instance variables), the State-based setters and getters of the handle Force::LinearBushing,
+    instance variables), the State-based setters and 17 getters of the handle Force::LinearBushing,
   * the allocation table of realizeTopology (which index is allocated with which depends-on / invalidates stage),
   * Rotation::calcNForBodyXYZInBodyFrame (both overloads, REAL code),
 transliterates them mechanically (tools/translit.py; plumbing rewrites of this file are counted and logged) and runs
 them on symbolic reals / dual numbers.
 
-Entry points (plugged into the existing checks by the coordinator):
-    c13_part(ctx)   action-reaction of the applied spatial forces
-    c12_part(ctx)   power of the applied forces == -(d/dt PE) - sum c_i qdot_i^2 along any rigid motion
-    c38_part(ctx)   documented law + parameter changes take effect (lazy cache entries, valid flags)
-    replay(ctx, ob) native driver replay/bushing_replay.cpp with Force_LinearBushing.cpp of the current tree
+Entry points (plugged into the existing checks by the coordinator; each adds obligations / assumptions / not_decided to ctx):
+    c13_part(ctx)   units bushing.reaction      action-reaction of the applied spatial forces
+    c12_part(ctx)   units bushing.power         power of the applied forces == -(d/dt PE) - sum c_i qdot_i^2 along any rigid motion
+    c38_part(ctx)   units bushing.law / .cache  documented law + parameter changes take effect (lazy cache entries, valid flags)
+    replay(ctx, ob) native driver replay/bushing_replay.cpp with Force_LinearBushing.cpp of the current tree compiled in
 
-Kinematic chart (used by c13/c12/law): the configuration is described by
+Method (callers verified against callee contracts, README rule 3): the three lazily evaluated stages are verified ONE AT A TIME. The real
+ensurePositionCacheValid runs on the symbolic configuration and the position-cache CONTRACT is proved; the cache is then overwritten
+with the contract values and the real ensureVelocityCacheValid runs against them (velocity-cache contract), likewise the force stage.
+Goals that are instances of general facts are proved in generalised form (Prover: rewriting with established equalities, heavy
+subterms replaced by fresh variables) and chained by transitivity obligations.
+
+Kinematic chart: the configuration is described by
     R_GF = R(e), |e| = 1 (unit quaternion chart),   R_FM = Rx(q0) Ry(q1) Rz(q2) (body-fixed x-y-z angles q, symbolic
-    (cos,sin) pairs),   p_FM in F,   p of body 1,   frame origins p_B1F, p_B2M (symbolic),
+    (cos,sin) pairs),   p_FM in F,   origin of body 1,   frame origins p_B1F, p_B2M (symbolic),
 and the two body poses are DERIVED from these (R_GM = R_GF R_FM, p_GM = p_GF + R_GF p_FM). The motion is given by
-w_GB1, v_GB1 (free), the coordinate rates r = d/dt q and u = d/dt p_FM (free); body 2's spatial velocity is the
-derivative of its derived pose (lemma chart.*). `Rotation::convertRotationToBodyFixedXYZ` is NOT executed: it is
+w_GB1, v_GB1 (free), the coordinate rates r = d/dt q and u = d/dt p_FM (free); the other body's spatial velocity follows
+(lemmas `chart ...`, which involve no code under test). `Rotation::convertRotationToBodyFixedXYZ` is NOT executed: it is
 replaced by its contract (proved in C27 away from the singularity): it hands back the chart angles q, which is
 legitimate because the code's R_FM is proved equal to Rxyz(q) (obligations `converter contract instance`)."""
-import os, re, z3, time
+import os, re, z3, time, fractions, random
 import symlib as S
 from symlib import *
 from blib import BUnit
@@ -181,6 +187,7 @@ class MSubsystem:
         s.invalidate(s.dvs[ix]["invalidates"])
         return s.dvs[ix]["value"]
     def getCacheEntry(self, s, ix):
+        assert self.isCacheValueRealized(s, ix), "getCacheEntry on a cache entry that is not realized (the real State throws here)"
         v = s.ces[ix]["value"]
         return v.v if isinstance(v, Cell) else v
     def updCacheEntry(self, s, ix): return s.ces[ix]["value"]
@@ -260,13 +267,12 @@ IMPL_METHODS = [n for n, _ in ONE_LINERS] + [n for n, _ in IMPL_FUNCS] + ["getFo
 ALLOC_RX = re.compile(r"mThis->(\w+)\s*=\s*getForceSubsystem\(\)\s*\.\s*(allocateDiscreteVariable|allocateCacheEntry|allocateLazyCacheEntry|allocateZ)\s*\(\s*s\s*,\s*"
                       r"(?:Stage::(\w+)\s*,\s*(?:Stage::(\w+)\s*,)?)?")
 
-_BUILT = {}
 
 
 def build(ctx):
     """cut + transliterate; returns a Bag(B, Impl, Handle, alloc, N) cached per ctx"""
-    if id(ctx) in _BUILT:
-        return _BUILT[id(ctx)]
+    if getattr(ctx, "_bushing_bag", None) is not None:
+        return ctx._bushing_bag
     B = BUnit(ctx); ns = B.ns
     ns["SpatialVec"] = S.SpatialVec
     def SETSUB(v, n, k, e):
@@ -308,7 +314,7 @@ def build(ctx):
     Handle.getImpl = lambda self: self._impl
     Handle.updImpl = lambda self: self._impl
     bag = Bag(); bag.B, bag.Impl, bag.Handle, bag.alloc, bag.ns = B, Impl, Handle, alloc, ns
-    _BUILT[id(ctx)] = bag
+    ctx._bushing_bag = bag
     return bag
 
 
@@ -401,17 +407,18 @@ class Scen:
             self.v2 = dpart(p_GM) - cross(self.w2, plain(R_GB2) * pM)
             self.moving_derived = dict(name="body 2", R=R_GB2, w=self.w2, p=p_GB2, v=self.v2, p_frame=p_GM, arm=pM)
         elif kind == "body2 is Ground":
+            # same chart; body 2 is Ground, so R_GM = R_GF R_FM and p_GM must be CONSTANT: this fixes body 1's velocity (w_GB1 = -R_GF omegaF,
+            # lemma chart.ground2) and frame M has the arbitrary constant orientation R_B2M = R(e) Rxyz(q), origin p_B2M
             self.w2, self.v2 = zero3, zero3
             R_GB2 = I3; p_GB2 = zero3
-            X_B2M = XF(Rg, pM)
-            R_GM = Rg; p_GM = pM
-            R_GF = Rg * ~Rq
+            self.w1 = -(Rg * self.omegaF)
+            R_GB1 = moving(Rg, self.w1); R_GF = R_GB1; X_B1F = XF(None, pF)
+            R_GM = plain(Rg * Rq); p_GM = pM
+            X_B2M = XF(R_GM, pM)
             self.pf = v3(t + "pf"); self.u = v3(t + "u")
             p_FM = dualvec(self.pf, self.u)
             p_GF = p_GM - R_GF * p_FM
-            R_GB1 = R_GF; X_B1F = XF(None, pF)
             p_GB1 = p_GF - R_GB1 * pF
-            self.w1 = -(Rg * self.omega)
             self.v1 = dpart(p_GF) - cross(self.w1, plain(R_GB1) * pF)
             self.moving_derived = dict(name="body 1", R=R_GB1, w=self.w1, p=p_GB1, v=self.v1, p_frame=p_GF, arm=pF)
         else:
@@ -446,7 +453,7 @@ class Scen:
         self.converted.append(Rm)
         return Vec(*self.q)
 
-    def make_element(self, k=None, c=None, X_B1F=None, X_B2M=None):
+    def make_element(self, k=None, c=None, X_B1F=None, X_B2M=None, install=True):
         """element + State stand-ins as realizeTopology leaves them (allocation table read from the source)"""
         bag = self.bag
         st = MState(); sub = MSubsystem()
@@ -468,7 +475,8 @@ class Scen:
             raise ExtractionError("realizeTopology: no allocation found for %s" % ", ".join(missing))
         st.stage = SIX["Model"]
         h = bag.Handle(); h._impl = impl
-        self.state, self.impl, self.handle = st, impl, h
+        if install:
+            self.state, self.impl, self.handle = st, impl, h
         return st, impl, h
 
     @staticmethod
@@ -479,20 +487,861 @@ class Scen:
     def fresh_vc():
         vc = Bag(); vc.qdot = Vec([0] * 6); return vc
 
-    def run(self, stage="Dynamics"):
-        """realize and evaluate force and energy through the real calcForce / calcPotentialEnergy"""
-        RotM.angles_of = self.angles
-        try:
-            self.state.realize(stage)
-            z = lambda: S.SpatialVec(Vec(0, 0, 0), Vec(0, 0, 0))
-            bf = [z() for _ in self.bodies]
-            self.impl.calcForce(self.state, bf, [], None)
-            pe = self.impl.calcPotentialEnergy(self.state)
-        finally:
-            RotM.angles_of = None
-        self.bf, self.pe = bf, pe
-        self.pc = self.impl.getPositionCache(self.state); self.vc = self.impl.getVelocityCache(self.state); self.fc = self.impl.getForceCache(self.state)
-        return bf, pe
-
     def side(self):
         return self.unit + list(self.env.side) + [self.c1 != 0]
+
+
+# ----------------------------------------------------------------------
+# proving helper: lemma chains with rewriting by established equalities and generalisation of heavy subterms
+# ----------------------------------------------------------------------
+def _terms(x):
+    return [val(e) for e in S.elements(x)]
+
+
+def _trivial(t):
+    t = z3.simplify(t)
+    return z3.is_rational_value(t) or z3.is_const(t)
+
+
+def fvars(e_, acc=None):
+    acc = set() if acc is None else acc
+    stack = [e_]; seen = set()
+    while stack:
+        t = stack.pop()
+        if t.get_id() in seen:
+            continue
+        seen.add(t.get_id())
+        if z3.is_const(t) and t.decl().kind() == z3.Z3_OP_UNINTERPRETED:
+            acc.add(str(t))
+        stack.extend(t.children())
+    return acc
+
+
+def _consts(e_, acc):
+    stack = [e_]; seen = set()
+    while stack:
+        t = stack.pop()
+        if t.get_id() in seen:
+            continue
+        seen.add(t.get_id())
+        if z3.is_const(t) and t.decl().kind() == z3.Z3_OP_UNINTERPRETED:
+            acc[str(t)] = t
+        stack.extend(t.children())
+    return acc
+
+
+_CIRCLE_T = [fractions.Fraction(1, 2), fractions.Fraction(-1, 3), fractions.Fraction(2, 3), fractions.Fraction(3, 4), fractions.Fraction(-2, 5), fractions.Fraction(1, 4), fractions.Fraction(-3, 5), fractions.Fraction(4, 7)]
+_QUATS = [(1, 2, 2, 4, 5), (2, 4, 5, 6, 9), (1, 4, 4, 4, 7), (2, 2, 4, 5, 7), (1, 2, 4, 10, 11), (4, 1, 2, 2, 5), (5, 6, 2, 4, 9), (4, 10, 1, 2, 11)]
+
+
+class Prover:
+    """prove_eq with two sound goal transformations (both logged in the obligation detail):
+       rw=[(A, B)]   : components of A are rewritten to the components of B; A == B must be an obligation established EARLIER
+                       in the same run (its name is given in `by`), so the rewritten goal is equivalent under proved facts;
+       opaque=[X]    : the component terms of X are replaced by fresh variables ('generalisation'): the goal proved is the
+                       universally quantified lemma of which the original goal is the instance.
+    Every goal is first tried without hypotheses (4 s; only `discharged` is accepted), then with exactly the hypotheses given."""
+    def __init__(self, B, unit):
+        self.B, self.unit, self.n, self.ok = B, unit, 0, {}
+        self.circles, self.spheres = [], []
+        self.rng = random.Random(20260922)
+
+    def set_chart(self, sc):
+        """the (cos,sin) pairs and the unit quaternion of a scenario: sample points for the numeric refuter are taken ON these constraints"""
+        self.circles = [(c_, s_) for c_, s_ in sc.cs]
+        self.spheres = [[val(x) for x in sc.e]]
+
+    def refute(self, g, hyps, tries=4):
+        """cheap refutation: evaluate the goal at rational sample points that satisfy the hypotheses (exact arithmetic). A point where all
+        hypotheses hold and the goal is false is a genuine counterexample; nothing is ever PROVED this way."""
+        cs = {}
+        _consts(g, cs)
+        for h_ in hyps:
+            _consts(h_, cs)
+        for k in range(tries):
+            asg = {}
+            for j, (c_, s_) in enumerate(self.circles):
+                t = _CIRCLE_T[(3 * k + j * 5 + self.rng.randrange(8)) % len(_CIRCLE_T)]
+                asg[str(c_)] = (1 - t * t) / (1 + t * t); asg[str(s_)] = 2 * t / (1 + t * t)
+            for e_ in self.spheres:
+                qd = _QUATS[(k + self.rng.randrange(8)) % len(_QUATS)]
+                sg = [self.rng.choice((-1, 1)) for _ in range(4)]
+                for x, a_, sgn in zip(e_, qd[:4], sg):
+                    asg[str(x)] = fractions.Fraction(sgn * a_, qd[4])
+            pairs = []
+            for nm, t in cs.items():
+                v = asg.get(nm)
+                if v is None:
+                    v = fractions.Fraction(self.rng.randint(1, 9), self.rng.randint(1, 7)) * (1 if (k % 2 == 1 or self.rng.random() < 0.5) else -1)
+                    asg[nm] = v
+                pairs.append((t, z3.RealVal(str(v))))
+            try:
+                if not all(z3.is_true(z3.simplify(z3.substitute(h_, *pairs))) for h_ in hyps):
+                    continue
+                gv = z3.simplify(z3.substitute(g, *pairs))
+            except z3.Z3Exception:
+                continue
+            if z3.is_false(gv):
+                return {nm: str(v) for nm, v in asg.items() if nm in cs}
+        return None
+
+    def eq(self, name, lhs, rhs, hyps=(), rw=(), opaque=(), by=(), T=20000, function=None, nohyp_first=True):
+        B = self.B
+        broken = [b_ for b_ in by if self.ok.get(b_) is False]
+        if broken:
+            # a premise of this step (an equality it is rewritten with) was refuted above: the chain is broken here; no solver call
+            B.ctx.add(Obligation("%s:%s" % (self.unit, name), self.unit, "python (lemma chain)", "failed", 0,
+                                 "premise not established: %s" % "; ".join(broken)[:300], function=function))
+            self.ok[name] = False
+            return False
+        pairs = []
+        for A, Bt in rw:
+            for a, b in zip(_terms(A), _terms(Bt)):
+                if z3.is_rational_value(a) or z3.eq(a, b):
+                    continue
+                pairs.append((a, b))
+        gens = []
+        for X in opaque:
+            for t in _terms(X):
+                if not _trivial(t):
+                    self.n += 1
+                    gens.append((t, z3.Real("gen_%d" % self.n)))
+        allok = True
+        second = B.ctx.tier == "thorough" and len(B.ctx.obligations) < 600
+        detail = "identity %s" % name
+        if rw:
+            detail += " [rewritten with established equalities: %s]" % "; ".join(by)
+        if opaque:
+            detail += " [generalised: %d heavy subterms replaced by fresh variables]" % len(gens)
+        for i, g in S.eq_all(lhs, rhs):
+            if pairs:
+                g = z3.substitute(g, *pairs)
+            if gens:
+                g = z3.substitute(g, *gens)
+            nm = "%s[%d]" % (name, i)
+            r = None
+            if nohyp_first and hyps:
+                r0 = S.prove(g, side=[], timeout_ms=4000, name=nm, outdir=None)
+                if r0.status == "discharged":
+                    r = r0
+            if r is None:
+                cex = self.refute(g, list(hyps))
+                if cex is not None:
+                    r = S.Result("failed", 0.0, model=cex, backend="exact evaluation at a rational sample point satisfying the hypotheses")
+            if r is None:
+                r = S.prove(g, side=list(hyps), timeout_ms=T, name=nm, outdir=os.path.join(B.ctx.out, "smt2"), second_opinion=second)
+            B.record(nm, self.unit, r, function, detail)
+            allok = allok and r.status == "discharged"
+        self.ok[name] = allok
+        return allok
+
+    def holds(self, name, goal, hyps=(), T=20000, function=None):
+        r = self.B.prove_bool(name, goal, list(hyps), self.unit, function, timeout_ms=T, minimal=True)
+        self.ok[name] = r.status == "discharged"
+        return self.ok[name]
+
+    def transitivity(self, name, steps, function=None):
+        """bookkeeping obligation: the conclusion follows from the named steps by transitivity of equality / instantiation"""
+        good = all(self.ok.get(s_, False) for s_ in steps)
+        bad = [s_ for s_ in steps if not self.ok.get(s_, False)]
+        self.B.ctx.add(Obligation("%s:%s" % (self.unit, name), self.unit, "python (transitivity of the proved steps)", "discharged" if good else "failed", 0,
+                                  "lemma chain: %s" % " ; ".join(steps) + ("" if good else " -- NOT established: %s" % "; ".join(bad)), function=function))
+        self.ok[name] = good
+        return good
+
+    def guard(self, name, hyps):
+        return self.B.guard_sat(name, list(hyps), self.unit)
+
+
+FN_POS = IMPLN + "::ensurePositionCacheValid"
+FN_VEL = IMPLN + "::ensureVelocityCacheValid"
+FN_FRC = IMPLN + "::ensureForceCacheValid"
+FN_PE = IMPLN + "::ensurePotentialEnergyValid"
+
+
+def chart_lemmas(Pv, sc, tag):
+    """facts about the CHART only (no code under test): the derived body's pose moves with the velocity handed to the code.
+    Returns the names of the established facts (for the `by` lists)."""
+    cs = list(sc.env.side)
+    Rqv = plain(sc.Rq_full); y = v3("gy"); X = S.mat_sym("gX", 3, 3); w = v3("gw")
+    Rg = Rquat(sc.e)
+    FN = "kinematic chart (check-side definitions)"
+    nL1 = "%s: chart L1: d/dt Rxyz(q) == Rxyz(q) [omega]x, omega = NInv(q) r (Kane 1-2-3 body-three, written in the check)" % tag
+    nL2 = "%s: chart L2: Rxyz(q) [y]x == [Rxyz(q) y]x Rxyz(q) for every y (instance y = omega: Rxyz [omega]x == [omegaF]x Rxyz)" % tag
+    nL3 = "%s: chart: d/dt R_FM == [omegaF]x R_FM (omegaF = R_FM omega: angular velocity of M in F, expressed in F)" % tag
+    Pv.eq(nL1, dpart(sc.Rq_full), Rqv * crossMat(sc.omega), cs, function=FN)
+    Pv.eq(nL2, Rqv * crossMat(y), crossMat(Rqv * y) * Rqv, cs, function=FN)
+    Pv.transitivity(nL3, [nL1, nL2], function=FN)
+    sc.fact_dRq = nL3
+    if sc.kind == "both frames on one body":
+        return
+    nL4 = "%s: chart L4: [w]x (R X) + R ([y]x X) == [w + R y]x (R X) for every w, y, X; R = R(e), |e| = 1" % tag
+    Pv.eq(nL4, crossMat(w) * (Rg * X) + Rg * (crossMat(y) * X), crossMat(w + Rg * y) * (Rg * X), sc.unit, function=FN)
+    nL5 = "%s: chart: d/dt (R_GF R_FM) is the product rule (dual arithmetic), with d/dt R_FM rewritten by L3: [w_GB1]x R_GF R_FM + R_GF [omegaF]x R_FM" % tag
+    md = sc.moving_derived
+    prod = md["R"] if sc.kind in ("two moving bodies", "body1 is Ground") else sc.R_GF * sc.Rq_full      # R_GB2 of the chart / the product that must stay constant
+    Pv.eq(nL5, dpart(prod), crossMat(sc.w1) * (Rg * Rqv) + Rg * (crossMat(sc.omegaF) * Rqv), sc.unit + cs,
+          rw=[(dpart(sc.Rq_full), crossMat(sc.omegaF) * Rqv)], by=[nL3], opaque=[sc.omegaF, Rqv], function=FN)
+    if sc.kind in ("two moving bodies", "body1 is Ground"):
+        md = sc.moving_derived
+        nR = "%s: chart: body 2 moves with the angular velocity handed to the code: d/dt R_GB2 == [w_GB2]x R_GB2, w_GB2 = w_GB1 + R_GF omegaF" % tag
+        Pv.transitivity(nR, [nL3, nL5, nL4], function=FN)
+        nP = "%s: chart: body 2's origin moves with the velocity handed to the code: d/dt p_GB2 == d/dt p_GM - w_GB2 x (R_GB2 p_B2M)" % tag
+        Pv.eq(nP, dpart(md["p"]), md["v"], sc.unit + cs, rw=[(dpart(md["R"]), crossMat(md["w"]) * plain(md["R"]))], by=[nR], function=FN)
+    else:
+        nR = "%s: chart: frame M is fixed on Ground: d/dt (R_GF R_FM) == 0 for w_GB1 = -R_GF omegaF (instance w = -R y of L4)" % tag
+        Pv.transitivity(nR, [nL3, nL5, nL4], function=FN)
+        md = sc.moving_derived
+        nP = "%s: chart: body 1's origin moves with the velocity handed to the code (d/dt R_GB1 = [w_GB1]x R_GB1 by construction)" % tag
+        Pv.eq(nP, dpart(md["p"]), md["v"], sc.unit + cs, function=FN)
+        Pv.eq("%s: chart: OM is fixed on Ground: p_GF + R_GF p_FM == p_B2M along the motion (value and d/dt)" % tag,
+              dpart(sc.p_GF + sc.R_GF * sc.p_FM), Vec(0, 0, 0), sc.unit + cs, function=FN)
+
+
+def stage_position(Pv, sc, tag, rates=True):
+    """run the REAL ensurePositionCacheValid, prove the position-cache contract, then continue with the contract values"""
+    st, impl = sc.state, sc.impl
+    RotM.angles_of = sc.angles
+    try:
+        st.realize("Dynamics")
+        good, _ = guarded(Pv, "%s: ensurePositionCacheValid" % tag, lambda: (impl.ensurePositionCacheValid(st), [getattr(impl.getPositionCache(st), a_) for a_ in ("X_GF", "X_GM", "X_FM", "p_B1F_G", "p_B2M_G", "p_FM_G")]), FN_POS)
+    finally:
+        RotM.angles_of = None
+    pc = impl.getPositionCache(st)
+    H = sc.unit + list(sc.env.side)
+    ok = True
+    if not good:
+        for a_ in ("X_GF", "X_GM", "X_FM"):
+            setattr(pc, a_, XF())
+        pc.p_B1F_G = pc.p_B2M_G = pc.p_FM_G = Vec(0, 0, 0)
+        impl.markPositionCacheValid(st)
+    q6 = Vec(*(list(sc.q) + list(sc.p_FM)))
+    want = [("X_GF.R == R_GB1 R_B1F", pc.X_GF.R(), sc.R_GF), ("X_GF.p == p_GB1 + R_GB1 p_B1F", pc.X_GF.p(), sc.p_GF),
+            ("X_GM.R == R_GB2 R_B2M", pc.X_GM.R(), sc.R_GM), ("X_GM.p == p_GB2 + R_GB2 p_B2M", pc.X_GM.p(), sc.p_GM),
+            ("X_FM.R == Rx(q0) Ry(q1) Rz(q2) (converter contract instance: the angles handed back reproduce the code's R_FM)", pc.X_FM.R(), sc.Rxyz),
+            ("X_FM.p == p_FM (OF to OM, expressed in F)", pc.X_FM.p(), sc.p_FM),
+            ("p_B1F_G == R_GB1 p_B1F", pc.p_B1F_G, sc.X_GB1.R() * sc.pF), ("p_B2M_G == R_GB2 p_B2M", pc.p_B2M_G, sc.X_GB2.R() * sc.pM),
+            ("p_FM_G == p_GM - p_GF (OF to OM in G)", pc.p_FM_G, sc.p_GM - sc.p_GF),
+            ("q == (angles of R_FM, p_FM)", pc.q, q6)]
+    for nm, got, exp in want:
+        ok = Pv.eq("%s: position cache %s" % (tag, nm), plain(got), plain(exp), H, function=FN_POS) and ok
+    if rates:
+        Rqv = plain(sc.Rq_full)
+        if sc.kind == "body2 is Ground":
+            # M is fixed: d/dt R_FM comes from F's motion alone; compare with the chart through d/dt R_FM == [omegaF]x R_FM
+            ok = Pv.eq("%s: d/dt of the code's R_FM along the motion == d/dt Rxyz(q) with the chart rates r" % tag, dpart(pc.X_FM.R()), crossMat(sc.omegaF) * Rqv, H,
+                       opaque=[sc.omegaF, Rqv], by=[getattr(sc, "fact_dRq", "chart: d/dt R_FM == [omegaF]x R_FM")], function=FN_POS) and ok
+        else:
+            ok = Pv.eq("%s: d/dt of the code's R_FM along the motion == d/dt Rxyz(q) with the chart rates r" % tag, dpart(pc.X_FM.R()), dpart(sc.Rxyz), H,
+                       opaque=[dpart(sc.Rq_full), Rqv], function=FN_POS) and ok
+        ok = Pv.eq("%s: d/dt of the code's q[3:6] along the motion == u" % tag, dpart(pc.q.getSubVec(3, 3)), sc.u, H, function=FN_POS) and ok
+    ncalls = len(sc.converted)
+    Pv.holds("%s: the converter is consulted exactly once, on the code's R_FM" % tag, z3.BoolVal(ncalls == 1 and sc.converted[0] is pc.X_FM.R()), function=FN_POS)
+    # continue with the contract (values only; q keeps its rates for d/dt PE)
+    pc.X_GF = XF(plain(sc.R_GF), plain(sc.p_GF)); pc.X_GM = XF(plain(sc.R_GM), plain(sc.p_GM)); pc.X_FM = XF(plain(sc.Rxyz), plain(sc.p_FM))
+    pc.p_B1F_G = plain(sc.X_GB1.R() * sc.pF); pc.p_B2M_G = plain(sc.X_GB2.R() * sc.pM); pc.p_FM_G = plain(sc.p_GM - sc.p_GF)
+    pc.q = q6
+    sc.pc = pc
+    return ok
+
+
+def stage_velocity(Pv, sc, tag):
+    """REAL ensureVelocityCacheValid against the position-cache CONTRACT; proves the velocity-cache contract, then continues with it"""
+    st, impl = sc.state, sc.impl
+    good, _ = guarded(Pv, "%s: ensureVelocityCacheValid" % tag, lambda: (impl.ensureVelocityCacheValid(st), [getattr(impl.getVelocityCache(st), a_) for a_ in ("V_GF", "V_GM", "V_FM")]), FN_VEL)
+    vc = impl.getVelocityCache(st)
+    if not good:
+        zz = S.SpatialVec(Vec(0, 0, 0), Vec(0, 0, 0))
+        vc.V_GF = vc.V_GM = vc.V_FM = zz
+        impl.markVelocityCacheValid(st)
+    H = sc.unit + list(sc.env.side) + [sc.c1 != 0]
+    rd = Vec(*[D(x) for x in sc.r])
+    ok = True
+    ok = Pv.eq("%s: velocity cache V_GF == (w_GB1, d/dt p_GF)" % tag, plain(vc.V_GF), S.SpatialVec(sc.w1, dpart(sc.p_GF)), H, function=FN_VEL) and ok
+    ok = Pv.eq("%s: velocity cache V_GM == (w_GB2, d/dt p_GM)" % tag, plain(vc.V_GM), S.SpatialVec(sc.w2, dpart(sc.p_GM)), H, function=FN_VEL) and ok
+    n1 = "%s: velocity cache V_FM[0] == omegaF (angular velocity of M in F, in F)" % tag
+    ok = Pv.eq(n1, plain(vc.V_FM[0]), sc.omegaF if sc.kind != "both frames on one body" else Vec(0, 0, 0), H, function=FN_VEL) and ok
+    ok = Pv.eq("%s: velocity cache V_FM[1] == u (d/dt p_FM taken in F)" % tag, plain(vc.V_FM[1]), sc.u, H, function=FN_VEL) and ok
+    if sc.kind != "both frames on one body":
+        ok = Pv.eq("%s: velocity cache qdot[0:3] == r (the true rates of the angles: N(q) ~R_FM omegaF == r)" % tag, plain(vc.qdot.getSubVec(3, 0)), rd, H,
+                   rw=[(plain(vc.V_FM[0]), sc.omegaF)], by=[n1], function=FN_VEL) and ok
+    else:
+        ok = Pv.eq("%s: velocity cache qdot[0:3] == 0 (both frames on one body)" % tag, plain(vc.qdot.getSubVec(3, 0)), rd, H, function=FN_VEL) and ok
+    ok = Pv.eq("%s: velocity cache qdot[3:6] == u" % tag, plain(vc.qdot.getSubVec(3, 3)), sc.u, H, function=FN_VEL) and ok
+    vc.V_GF = S.SpatialVec(sc.w1, dpart(sc.p_GF)); vc.V_GM = S.SpatialVec(sc.w2, dpart(sc.p_GM))
+    vc.V_FM = S.SpatialVec(sc.omegaF if sc.kind != "both frames on one body" else Vec(0, 0, 0), sc.u)
+    vc.qdot = Vec(*(list(rd) + list(sc.u)))
+    sc.vc = vc
+    return ok
+
+
+def _nn(x):
+    assert x is not None, "value never computed (None)"
+    return x
+
+
+def guarded(Pv, what, fn, function=None):
+    """run a piece of the real code; reading a cache entry that was never filled (or a violated stand-in precondition) is a FAILED obligation, not a crash"""
+    try:
+        return True, fn()
+    except (AttributeError, TypeError, AssertionError) as e:
+        Pv.B.ctx.add(Obligation("%s:%s: runs on filled cache entries only" % (Pv.unit, what), Pv.unit, "python (symbolic execution)", "failed", 0,
+                                "the real code read a cache entry / value that had never been computed, or broke a stand-in precondition: %r" % (e,), function=function))
+        return False, None
+
+
+def stage_force(sc, Pv=None, tag=""):
+    """REAL calcForce / calcPotentialEnergy against the position- and velocity-cache contracts; returns None if the run itself failed"""
+    st, impl = sc.state, sc.impl
+    z = lambda: S.SpatialVec(Vec(0, 0, 0), Vec(0, 0, 0))
+    bf = [z() for _ in sc.bodies]
+    def go():
+        impl.calcForce(st, bf, [], None)
+        fc = impl.getForceCache(st)
+        pe = _nn(impl.calcPotentialEnergy(st))
+        for a_ in ("F_GF", "F_GM", "F_GB1", "F_GB2", "f", "power"):
+            getattr(fc, a_)
+        return fc, pe
+    if Pv is None:
+        sc.fc, sc.pe = go()
+    else:
+        ok, r = guarded(Pv, "%s: calcForce / calcPotentialEnergy" % tag, go, FN_FRC)
+        if not ok:
+            return None
+        sc.fc, sc.pe = r
+    sc.bf = bf
+    sc.q6 = list(plain(Vec(*sc.q))) + list(plain(sc.p_FM))
+    sc.qd6 = [D(x) for x in sc.r] + list(sc.u)
+    return bf
+
+
+# ----------------------------------------------------------------------
+# C13: action-reaction
+# ----------------------------------------------------------------------
+def _assumptions(ctx):
+    ctx.trust("z3 4.x / cvc5 1.0 (QF_NRA)"); ctx.trust("tools/translit.py rule table (logged), tools/symlib.py shim (dual numbers) and the local Transform/Rotation/State stand-ins of checks/part_bushing.py")
+    ctx.assume("machine arithmetic treated as mathematical (reals)")
+    ctx.assume("LinearBushing: matter API by contract (mock): getBodyTransform = X_GB, getBodyVelocity = (w_GB, velocity of the body origin); Transform/Rotation algebra by its textbook meaning "
+               "(X*X composition, ~X inverse, R*v); time derivatives d/dt R = [w]x R, d/dt p = v (dual numbers)")
+    ctx.assume("LinearBushing: Rotation::convertRotationToBodyFixedXYZ (angle extraction with atan2 branches) is replaced by its contract, proved in C27: angle extraction inverts "
+               "setRotationToBodyFixedXYZ when cos(q1) != 0 -- the configuration is charted by the angles q (R_FM = Rx(q0) Ry(q1) Rz(q2), symbolic (cos,sin) pairs), the stand-in hands q back, "
+               "and the code's own R_FM is proved equal to Rxyz(q) in every scenario; Rotation::calcNForBodyXYZInBodyFrame is the REAL code")
+    ctx.assume("LinearBushing: generality of the configuration chart: R_GF = R(e) any unit quaternion, q any angles with cos(q1) != 0, p_FM, body origin, frame origins p_B1F, p_B2M and all velocities "
+               "symbolic; the frames F, M are parallel to the body frames on MOVING bodies (a frame fixed on Ground has an arbitrary constant orientation; with both frames on one body M is turned "
+               "by Rxyz(q) against F); surjectivity of the unit-quaternion chart onto the rotations is textbook")
+
+
+def _not_decided(ctx, extra=()):
+    for t in ("LinearBushing: float rounding; behaviour at and near the coordinate singularity cos(q1) = 0; angle wrap (the converter's branch choice, proved in C27 only away from the singularity)",
+              "LinearBushing: time-derivative clauses (qdot is d/dt q, energy balance) for frames ROTATED against the body frame on a MOVING body are covered by reduction only (position stage proved for all "
+              "3x3 matrices, later stages proved not to use the orientations except through the position cache; re-orienting the body frame parallel to the bushing frame changes neither R_GF, p_B1F_G, the body "
+              "origin nor V_GB) -- the reduction step itself is argued, not machine-checked; rotated frames on Ground ARE machine-checked",
+              "LinearBushing: default-parameter setters (setDefault*, Topology stage), dissipated-energy state variable (setDissipatedEnergy/getDissipatedEnergy and its integration)") + tuple(extra):
+        if t not in ctx.not_decided:
+            ctx.not_decided.append(t)
+
+
+def c13_part(ctx):
+    """action-reaction: the spatial forces added to bodyForces sum to zero force and zero moment about the Ground origin"""
+    try:
+        bag = build(ctx)
+    except ExtractionError as e:
+        ctx.undecide("extraction (LinearBushing): %s" % e); return
+    U = "bushing.reaction"
+    Pv = Prover(bag.B, U)
+    FN = IMPLN + "::calcForce"
+    for kind in KINDS:
+        sc = Scen(bag, kind)
+        Pv.set_chart(sc)
+        H = sc.unit + list(sc.env.side)
+        Pv.guard("LinearBushing %s chart" % kind, sc.side())
+        stage_position(Pv, sc, kind, rates=False)
+        bf = stage_force(sc, Pv, kind)          # velocity cache computed by the real code; its content is opaque to these identities
+        if bf is None:
+            continue
+        fc = sc.fc
+        op = [plain(fc.F_GM[0]), plain(fc.F_GM[1])]
+        touched = sorted(set([sc.ix1, sc.ix2]))
+        f = Vec(0, 0, 0); m = Vec(0, 0, 0)
+        for ix in range(len(sc.bodies)):
+            Fv = plain(bf[ix])
+            origin = sc.origin.get(ix, Vec(0, 0, 0))
+            f = f + Fv[1]; m = m + Fv[0] + cross(origin, Fv[1])
+        Pv.eq("LinearBushing (%s): total force on all bodies == 0" % kind, f, Vec(0, 0, 0), H, opaque=op, function=FN)
+        Pv.eq("LinearBushing (%s): total moment about the Ground origin == 0" % kind, m, Vec(0, 0, 0), H, opaque=op, function=FN)
+        Pv.eq("LinearBushing (%s): F_GB1[1] + F_GB2[1] == 0 (equal and opposite forces)" % kind, plain(fc.F_GB1[1]) + plain(fc.F_GB2[1]), Vec(0, 0, 0), H, opaque=op, function=FN_FRC)
+        # the pair is a force f at OM on body 2 and -f at the SAME point on body 1, plus equal and opposite moments
+        a1 = plain(sc.p_GM) - sc.origin[sc.ix1]
+        Pv.eq("LinearBushing (%s): F_GB1 == -(F_GM shifted from OM to body 1's origin)" % kind, plain(fc.F_GB1),
+              S.SpatialVec(-(plain(fc.F_GM[0]) + cross(a1, plain(fc.F_GM[1]))), -plain(fc.F_GM[1])), H, opaque=op, function=FN_FRC)
+        a2 = plain(sc.p_GM) - sc.origin[sc.ix2]
+        Pv.eq("LinearBushing (%s): F_GB2 == F_GM shifted from OM to body 2's origin" % kind, plain(fc.F_GB2),
+              S.SpatialVec(plain(fc.F_GM[0]) + cross(a2, plain(fc.F_GM[1])), plain(fc.F_GM[1])), H, opaque=op, function=FN_FRC)
+        if kind == "both frames on one body":
+            Pv.eq("LinearBushing (%s): net wrench applied to the body vanishes identically" % kind, plain(bf[sc.ix1]), S.SpatialVec(Vec(0, 0, 0), Vec(0, 0, 0)), H, opaque=op, function=FN)
+        else:
+            Pv.eq("LinearBushing (%s): bodyForces[body1] == F_GB1" % kind, plain(bf[sc.ix1]), plain(fc.F_GB1), [], function=FN)
+            Pv.eq("LinearBushing (%s): bodyForces[body2] == F_GB2" % kind, plain(bf[sc.ix2]), plain(fc.F_GB2), [], function=FN)
+        others = [ix for ix in range(len(sc.bodies)) if ix not in touched]
+        for ix in others:
+            Pv.eq("LinearBushing (%s): body %d (not connected) untouched" % (kind, ix), plain(bf[ix]), S.SpatialVec(Vec(0, 0, 0), Vec(0, 0, 0)), [], function=FN)
+    general_frames(Pv, bag, same_body=False, reaction=True)
+    general_frames(Pv, bag, same_body=True, reaction=True)
+    _assumptions(ctx)
+    ctx.assume("LinearBushing action-reaction: the generalized forces f and the moment ~N f are opaque in these identities (generalised to arbitrary vectors): the balance holds for ANY force law")
+    _not_decided(ctx)
+
+
+# ----------------------------------------------------------------------
+# documented law of the force cache (shared by c12_part and c38_part)
+# ----------------------------------------------------------------------
+def law_obligations(Pv, sc, tag):
+    """f_i = -(k_i q_i + c_i qdot_i); PE = sum k_i q_i^2 / 2; power = sum c_i qdot_i^2; moment on body 2 = R_GM ~N(q) f[0:3] (REAL N), force = R_GF f[3:6]
+    applied at OM; the opposite wrench on body 1 at the same point. Returns the fact names."""
+    fc, bag = sc.fc, sc.bag
+    H = sc.unit + list(sc.env.side) + [sc.c1 != 0]
+    q6, qd6 = sc.q6, sc.qd6
+    names = {}
+    names["f"] = "%s: f_i == -(k_i q_i + c_i qdot_i)" % tag
+    Pv.eq(names["f"], plain(fc.f), Vec(*[-(sc.k[i] * q6[i] + sc.c[i] * qd6[i]) for i in range(6)]), [], function=FN_FRC)
+    pe2 = D(0); pw = D(0)
+    for i in range(6):
+        pe2 = pe2 + sc.k[i] * q6[i] * q6[i]; pw = pw + sc.c[i] * qd6[i] * qd6[i]
+    names["pe"] = "%s: potential energy == sum k_i q_i^2 / 2" % tag
+    Pv.eq(names["pe"], D(val(sc.pe)), pe2 / 2, [], function=FN_FRC)
+    names["pw"] = "%s: power dissipation == sum c_i qdot_i^2" % tag
+    Pv.eq(names["pw"], D(val(fc.power)), pw, [], function=FN_FRC)
+    Nm = bag.ns["calcNForBodyXYZInBodyFrame"](Vec(*[D(val(x)) for x in sc.q]))
+    sc.Nm = Nm
+    frot, ftr = plain(fc.f.getSubVec(3, 0)), plain(fc.f.getSubVec(3, 3))
+    sc.mB2_M = (~Nm) * frot
+    names["m"] = "%s: F_GM[0] == R_GM ~N(q) f[0:3] (moment on body 2; N = calcNForBodyXYZInBodyFrame, real code)" % tag
+    Pv.eq(names["m"], plain(fc.F_GM[0]), plain(sc.R_GM) * sc.mB2_M, H, function=FN_FRC)
+    names["ft"] = "%s: F_GM[1] == R_GF f[3:6] (translational force is aligned with F's axes)" % tag
+    Pv.eq(names["ft"], plain(fc.F_GM[1]), plain(sc.R_GF) * ftr, H, function=FN_FRC)
+    op = [plain(fc.F_GM[0]), plain(fc.F_GM[1])]
+    d = plain(sc.p_GM) - plain(sc.p_GF)
+    names["gf"] = "%s: F_GF == -(F_GM shifted from OM to OF)" % tag
+    Pv.eq(names["gf"], plain(fc.F_GF), S.SpatialVec(-(plain(fc.F_GM[0]) + cross(d, plain(fc.F_GM[1]))), -plain(fc.F_GM[1])), H, opaque=op, function=FN_FRC)
+    a1 = plain(sc.p_GM) - sc.origin[sc.ix1]; a2 = plain(sc.p_GM) - sc.origin[sc.ix2]
+    names["b1"] = "%s: F_GB1 == -(F_GM shifted from OM to body 1's origin)" % tag
+    Pv.eq(names["b1"], plain(fc.F_GB1), S.SpatialVec(-(plain(fc.F_GM[0]) + cross(a1, plain(fc.F_GM[1]))), -plain(fc.F_GM[1])), H, opaque=op, function=FN_FRC)
+    names["b2"] = "%s: F_GB2 == F_GM shifted from OM to body 2's origin" % tag
+    Pv.eq(names["b2"], plain(fc.F_GB2), S.SpatialVec(plain(fc.F_GM[0]) + cross(a2, plain(fc.F_GM[1])), plain(fc.F_GM[1])), H, opaque=op, function=FN_FRC)
+    return names
+
+
+# ----------------------------------------------------------------------
+# C12: energy consistency
+# ----------------------------------------------------------------------
+def c12_part(ctx):
+    """power of the applied forces == -(d/dt PE) - sum c_i qdot_i^2 along any rigid motion of the two bodies"""
+    try:
+        bag = build(ctx)
+    except ExtractionError as e:
+        ctx.undecide("extraction (LinearBushing): %s" % e); return
+    U = "bushing.power"
+    Pv = Prover(bag.B, U)
+    FN = IMPLN + "::calcForce"
+    for kind in KINDS:
+        sc = Scen(bag, kind)
+        Pv.set_chart(sc)
+        cs = list(sc.env.side)
+        H = sc.unit + cs + [sc.c1 != 0]
+        Pv.guard("LinearBushing %s chart" % kind, sc.side() + sc.param_side)
+        chart_lemmas(Pv, sc, kind)
+        stage_position(Pv, sc, kind, rates=True)
+        stage_velocity(Pv, sc, kind)
+        bf = stage_force(sc, Pv, kind)
+        if bf is None:
+            continue
+        fc = sc.fc
+        L = law_obligations(Pv, sc, kind)
+        Rg = Rquat(sc.e); Rqv = plain(sc.Rq_full)
+        frot, ftr = plain(fc.f.getSubVec(3, 0)), plain(fc.f.getSubVec(3, 3))
+        P = D(0)
+        for ix in sorted(set([sc.ix1, sc.ix2])):
+            w_, v_ = sc.V[ix]
+            P = P + dot(plain(bf[ix][0]), w_) + dot(plain(bf[ix][1]), v_)
+        fq = D(0)
+        for i in range(6):
+            fq = fq + plain(fc.f)[i] * sc.qd6[i]
+        opF = [plain(fc.F_GM[0]), plain(fc.F_GM[1])]
+        if kind == "both frames on one body":
+            n0 = "LinearBushing (%s): power of the applied forces == 0 (no relative motion)" % kind
+            Pv.eq(n0, P, D(0), H, opaque=opF, function=FN)
+            n1 = "LinearBushing (%s): f . qdot == 0 (qdot == 0)" % kind
+            Pv.eq(n1, fq, D(0), H, function=FN)
+            nVW = "LinearBushing (%s): power of the applied forces == f . qdot (virtual work)" % kind
+            Pv.transitivity(nVW, [n0, n1], function=FN)
+        else:
+            W = Rg * sc.omegaF; Uv = Rg * sc.u
+            n2 = "LinearBushing (%s): V2: sum F_GB . V_GB == F_GM[0] . (R_GF omegaF) + F_GM[1] . (R_GF u), for every wrench F_GM" % kind
+            Pv.eq(n2, P, dot(plain(fc.F_GM[0]), W) + dot(plain(fc.F_GM[1]), Uv), H, opaque=opF, function=FN)
+            a = sc.mB2_M
+            n3a = "LinearBushing (%s): V3a: (R_GM a) . (R_GF y) == (R_FM a) . y for all a, y (R_GM = R_GF R_FM, |e| = 1); instance a = ~N f[0:3], y = omegaF" % kind
+            Pv.eq(n3a, dot(plain(fc.F_GM[0]), W), dot(Rqv * a, sc.omegaF), sc.unit, rw=[(plain(fc.F_GM[0]), plain(sc.R_GM) * a)], by=[L["m"]], opaque=[a, sc.omegaF, Rqv], function=FN)
+            n3b = "LinearBushing (%s): V3b: (R_FM a) . (R_FM omega) == a . omega for all a, omega (Rxyz orthonormal)" % kind
+            Pv.eq(n3b, dot(Rqv * a, sc.omegaF), dot(a, sc.omega), cs, opaque=[a, sc.omega], function=FN)
+            n3c = "LinearBushing (%s): V3c: (~N f) . omega == f . (N omega) (transposition)" % kind
+            Pv.eq(n3c, dot(a, sc.omega), dot(frot, sc.Nm * sc.omega), [], opaque=[frot, plain(sc.Nm), sc.omega], function=FN)
+            n3d = "LinearBushing (%s): V3d: N(q) omega == r (REAL N inverts the chart's omega = NInv(q) r)" % kind
+            Pv.eq(n3d, sc.Nm * sc.omega, Vec(*sc.r), cs + [sc.c1 != 0], function=FN)
+            n4 = "LinearBushing (%s): V4: (R_GF f) . (R_GF u) == f . u for all f, u (|e| = 1); instance f = f[3:6]" % kind
+            Pv.eq(n4, dot(plain(fc.F_GM[1]), Uv), dot(ftr, sc.u), sc.unit, rw=[(plain(fc.F_GM[1]), Rg * ftr)], by=[L["ft"]], opaque=[ftr], function=FN)
+            n5 = "LinearBushing (%s): f . qdot == f[0:3] . r + f[3:6] . u (velocity-cache contract qdot == (r, u))" % kind
+            Pv.eq(n5, fq, dot(frot, Vec(*sc.r)) + dot(ftr, sc.u), [], function=FN)
+            nVW = "LinearBushing (%s): power of the applied forces == f . qdot (virtual work)" % kind
+            Pv.transitivity(nVW, [n2, n3a, n3b, n3c, n3d, n4, n5], function=FN)
+        n6 = "LinearBushing (%s): f . qdot == -(d/dt PE) - power dissipation (d/dt PE from the dual run of the real code)" % kind
+        Pv.eq(n6, fq, -D(der(sc.pe)) - D(val(fc.power)), [], function=FN_FRC)
+        Pv.transitivity("LinearBushing (%s): sum F_GB . V_GB == -(d/dt PE) - sum c_i qdot_i^2 along the motion (energy balance)" % kind, [nVW, n6, L["pw"], L["pe"]], function=FN)
+        g = [z3.Real("gen_qd%d" % i) for i in range(6)]
+        pw = sum((val(sc.c[i]) * g[i] * g[i] for i in range(1, 6)), val(sc.c[0]) * g[0] * g[0])
+        Pv.holds("LinearBushing (%s): dissipation sum c_i qdot_i^2 >= 0 for c >= 0 (qdot generalised)" % kind, pw >= 0, [val(x) >= 0 for x in sc.c], function=FN_FRC)
+        # d/dt of the code's coordinates are the code's qdot ("qdot is the true time derivative")
+        Pv.transitivity("LinearBushing (%s): qdot is the true time derivative of q along the motion (d/dt R_FM == d/dt Rxyz(q; qdot[0:3]), d/dt q[3:6] == qdot[3:6])" % kind,
+                        ["%s: d/dt of the code's R_FM along the motion == d/dt Rxyz(q) with the chart rates r" % kind, "%s: d/dt of the code's q[3:6] along the motion == u" % kind,
+                         "%s: velocity cache qdot[0:3] == %s" % (kind, "r (the true rates of the angles: N(q) ~R_FM omegaF == r)" if kind != "both frames on one body" else "0 (both frames on one body)"),
+                         "%s: velocity cache qdot[3:6] == u" % kind], function=FN_VEL)
+    _assumptions(ctx)
+    ctx.assume("LinearBushing energy: along the motion the angles q(t) stay on the converter's branch (no wrap, cos(q1) != 0), so d/dt q is determined by d/dt R_FM (chart lemmas L1-L3)")
+    _not_decided(ctx)
+
+
+# ----------------------------------------------------------------------
+# C38: documented law + parameter changes take effect (lazy cache entries with their valid flags)
+# ----------------------------------------------------------------------
+ENTRY_NAMES = ("Position", "PotentialEnergy", "Velocity", "Force")
+
+
+def _flags(impl, st):
+    return (impl.isPositionCacheValid(st), impl.isPotentialEnergyValid(st), impl.isVelocityCacheValid(st), impl.isForceCacheValid(st))
+
+
+class UFAngles:
+    """converter stand-in for the cache scenarios: a deterministic FUNCTION of its argument (same matrix -> same angle symbols,
+    another matrix -> other symbols), nothing else assumed"""
+    def __init__(self): self.memo = {}; self.calls = 0
+    def __call__(self, Rm):
+        self.calls += 1
+        key = tuple(val(x).sexpr() for x in S.elements(Rm))
+        if key not in self.memo:
+            n = len(self.memo)
+            self.memo[key] = Vec(*[D(z3.Real("ang%d_%d" % (n, i))) for i in range(3)])
+        return self.memo[key]
+
+
+def _evaluate(sc, st, impl, h, uf, first=None):
+    """everything a user can read, through the REAL handle getters / calcForce / calcPotentialEnergy (`first`: a getter to call before)"""
+    RotM.angles_of = uf
+    try:
+        if first:
+            getattr(h, first)(st)
+        z = lambda: S.SpatialVec(Vec(0, 0, 0), Vec(0, 0, 0))
+        bf = [z() for _ in sc.bodies]
+        impl.calcForce(st, bf, [], None)
+        out = dict(bodyForces=bf, pe=D.lift(_nn(impl.calcPotentialEnergy(st))), q=h.getQ(st), qdot=h.getQDot(st), f=h.getF(st), power=D.lift(_nn(h.getPowerDissipation(st))),
+                   pe_handle=D.lift(_nn(h.getPotentialEnergy(st))), X_GF_R=h.getX_GF(st).R(), X_GF_p=h.getX_GF(st).p(), X_GM_R=h.getX_GM(st).R(), X_GM_p=h.getX_GM(st).p(),
+                   X_FM_R=h.getX_FM(st).R(), X_FM_p=h.getX_FM(st).p(), V_GF=h.getV_GF(st), V_GM=h.getV_GM(st), V_FM=h.getV_FM(st), F_GF=h.getF_GF(st), F_GM=h.getF_GM(st))
+    except (AttributeError, TypeError, AssertionError) as e:
+        out = dict(error="a cache entry was read that had never been computed: %r" % (e,))
+    finally:
+        RotM.angles_of = None
+    return out
+
+
+def _same(Pv, name, a, b, function):
+    """every readable quantity of evaluation a equals that of evaluation b (structural identity is accepted without a solver call)"""
+    ok = True
+    if "error" in a or "error" in b:
+        Pv.B.ctx.add(Obligation("%s:%s" % (Pv.unit, name), Pv.unit, "python", "failed", 0, (a.get("error") or b.get("error"))[:300], function=function))
+        Pv.ok[name] = False
+        return False
+    for key in a:
+        xs = [y for o in (a[key] if isinstance(a[key], list) else [a[key]]) for y in S.elements(o)]
+        ys = [y for o in (b[key] if isinstance(b[key], list) else [b[key]]) for y in S.elements(o)]
+        if len(xs) == len(ys) and all(z3.eq(z3.simplify(val(x)), z3.simplify(val(y))) for x, y in zip(xs, ys)):
+            Pv.B.ctx.add(Obligation("%s:%s: %s" % (Pv.unit, name, key), Pv.unit, "python (structural identity of the two symbolic results)", "discharged", 0, "identity " + name, function=function))
+            continue
+        ok = Pv.eq("%s: %s" % (name, key), Vec(*xs), Vec(*ys), [], function=function, T=20000) and ok
+    Pv.ok[name] = ok
+    return ok
+
+
+def c38_part(ctx):
+    try:
+        bag = build(ctx)
+    except ExtractionError as e:
+        ctx.undecide("extraction (LinearBushing): %s" % e); return
+    # ---------------- (A) documented law on the chart, every attachment configuration ----------------
+    Pv = Prover(bag.B, "bushing.law")
+    for kind in KINDS:
+        sc = Scen(bag, kind)
+        Pv.set_chart(sc)
+        Pv.guard("LinearBushing %s chart" % kind, sc.side() + sc.param_side)
+        chart_lemmas(Pv, sc, kind)
+        stage_position(Pv, sc, kind, rates=True)
+        stage_velocity(Pv, sc, kind)
+        if stage_force(sc, Pv, kind) is None:
+            continue
+        law_obligations(Pv, sc, kind)
+        # the PE-only route (force not evaluated) gives the same energy
+        st2, impl2, h2 = sc.make_element(install=False)
+        RotM.angles_of = sc.angles
+        try:
+            st2.realize("Position")
+            good, pe_only = guarded(Pv, "%s: calcPotentialEnergy at Stage::Position" % kind, lambda: _nn(impl2.calcPotentialEnergy(st2)), FN_PE)
+        finally:
+            RotM.angles_of = None
+        if not good:
+            continue
+        pc2 = impl2.getPositionCache(st2)
+        Pv.eq("%s: potential energy computed without the force (ensurePotentialEnergyValid) == sum k_i q_i^2 / 2 on the code's own q" % kind, D(val(pe_only)),
+              sum((sc.k[i] * D(val(pc2.q[i])) * D(val(pc2.q[i])) for i in range(1, 6)), sc.k[0] * D(val(pc2.q[0])) * D(val(pc2.q[0]))) / 2, [], function=FN_PE)
+        Pv.holds("%s: the PE-only route realizes Position and PotentialEnergy entries only" % kind, z3.BoolVal(_flags(impl2, st2) == (True, True, False, False)), function=FN_PE)
+        # realizeAcceleration: the dissipated-energy state derivative is the dissipation power
+        good, _ = guarded(Pv, "%s: realizeAcceleration" % kind, lambda: (sc.impl.realizeAcceleration(sc.state), _nn(sc.state.zdot[sc.impl.dissipatedEnergyIx].v)), IMPLN + "::realizeAcceleration")
+        if not good:
+            continue
+        Pv.eq("%s: realizeAcceleration: zdot[dissipatedEnergy] == power dissipation" % kind, D(val(sc.state.zdot[sc.impl.dissipatedEnergyIx].v)), D(val(sc.fc.power)), [], function=IMPLN + "::realizeAcceleration")
+    general_frames(Pv, bag, same_body=False)
+    general_frames(Pv, bag, same_body=True)
+    # ---------------- (B)+(C) cache entries, valid flags, setters ----------------
+    Pc = Prover(bag.B, "bushing.cache")
+    FNS = HANDLEN + "::set*"
+    sc = Scen(bag, "two moving bodies", dual=False)
+    a = bag.alloc
+    Pc.holds("allocation table of realizeTopology: InstanceVars is a discrete variable that invalidates Stage::Instance; the four cache entries are lazy (computed-by Infinity), "
+             "Position and PotentialEnergy depend on Stage::Position, Velocity and Force on Stage::Velocity",
+             z3.BoolVal(a.get("instanceVarsIx", {}).get("stage1") == "Instance" and all(a.get(m, {}).get("stage2") == "Infinity" or a.get(m, {}).get("call") == "allocateLazyCacheEntry" for m in ("positionCacheIx", "potEnergyCacheIx", "velocityCacheIx", "forceCacheIx"))
+                        and a.get("positionCacheIx", {}).get("stage1") == "Position" and a.get("potEnergyCacheIx", {}).get("stage1") == "Position"
+                        and a.get("velocityCacheIx", {}).get("stage1") == "Velocity" and a.get("forceCacheIx", {}).get("stage1") == "Velocity"), function=IMPLN + "::realizeTopology")
+    def fresh(**kw):
+        st, impl, h = sc.make_element(install=False, **kw)
+        st.realize("Dynamics")
+        return st, impl, h
+    uf = UFAngles()
+    # (B) lazy evaluation: nothing valid before the first request, everything valid after, no recomputation while valid
+    st, impl, h = fresh()
+    Pc.holds("after realize, before any request: no cache entry is valid", z3.BoolVal(_flags(impl, st) == (False, False, False, False)), function=IMPLN + "::is*Valid")
+    sc.counter.clear(); c0 = uf.calls
+    ev0 = _evaluate(sc, st, impl, h, uf)
+    first = dict(sc.counter); conv1 = uf.calls - c0
+    Pc.holds("after evaluation all four entries are marked valid", z3.BoolVal(_flags(impl, st) == (True, True, True, True)), function=IMPLN + "::mark*Valid")
+    ev0b = _evaluate(sc, st, impl, h, uf)
+    Pc.holds("while valid nothing is recomputed (no further matter-API or converter call on the second evaluation; first evaluation: %s, converter %d)" % (first, conv1),
+             z3.BoolVal(dict(sc.counter) == first and uf.calls - c0 == conv1 and conv1 == 1), function=IMPLN + "::ensure*Valid")
+    _same(Pc, "second evaluation returns the cached values", ev0b, ev0, IMPLN + "::ensure*Valid")
+    if "error" in ev0:
+        Pc.B.ctx.add(Obligation("bushing.cache:first evaluation on a fresh state", "bushing.cache", "python", "failed", 0, ev0["error"][:300], function=FN_FRC))
+        _assumptions(ctx); _not_decided(ctx)
+        return
+    Pc.eq("calcPotentialEnergy == getPotentialEnergy (one energy, whichever route filled the entry)", ev0["pe"], ev0["pe_handle"], [], function=FN_PE)
+    # PE first, then force: the same values as force first
+    st, impl, h = fresh()
+    RotM.angles_of = uf
+    try:
+        good, pe_first = guarded(Pc, "PE request before the force", lambda: D.lift(_nn(impl.calcPotentialEnergy(st))), FN_PE)
+    finally:
+        RotM.angles_of = None
+    if not good:
+        pe_first = D(z3.Real("never_computed"))
+    Pc.holds("PE request alone marks Position and PotentialEnergy only", z3.BoolVal(_flags(impl, st) == (True, True, False, False)), function=FN_PE)
+    ev_pe_first = _evaluate(sc, st, impl, h, uf)
+    _same(Pc, "evaluation order PE-then-force gives the same results as force-then-PE", ev_pe_first, ev0, FN_FRC)
+    Pc.eq("PE from ensurePotentialEnergyValid == PE from ensureForceCacheValid", pe_first, ev0["pe"], [], function=FN_PE)
+    for g in ("getQ", "getQDot", "getPotentialEnergy", "getX_FM", "getV_FM"):
+        st, impl, h = fresh()
+        evg = _evaluate(sc, st, impl, h, uf, first=g)
+        _same(Pc, "evaluation after a first request %s gives the same results as force first" % g, evg, ev0, HANDLEN + "::" + g)
+    # (C) setters: State-based parameter changes
+    k1 = Vec(*[z3.Real("k%d_new" % i) for i in range(6)]); c1 = Vec(*[z3.Real("c%d_new" % i) for i in range(6)])
+    XF1 = XF(RotM(S.mat_sym("RF_new", 3, 3).m), v3("pF_new")); XM1 = XF(RotM(S.mat_sym("RM_new", 3, 3).m), v3("pM_new"))
+    cases = [("setStiffness", k1, dict(k=k1), "getStiffness"), ("setDamping", c1, dict(c=c1), "getDamping"),
+             ("setFrameOnBody1", XF1, dict(X_B1F=XF1), "getFrameOnBody1"), ("setFrameOnBody2", XM1, dict(X_B2M=XM1), "getFrameOnBody2")]
+    getters = ("getStiffness", "getDamping", "getFrameOnBody1", "getFrameOnBody2")
+    for setter, newval, kw, getter in cases:
+        st, impl, h = fresh()
+        before = {g: getattr(h, g)(st) for g in getters}
+        _evaluate(sc, st, impl, h, uf)
+        Pc.holds("%s: precondition of the scenario: all four entries valid before the change" % setter, z3.BoolVal(_flags(impl, st) == (True, True, True, True)), function=HANDLEN + "::" + setter)
+        ntrace = len(st.trace)
+        ret = getattr(h, setter)(st, newval)
+        tr = st.trace[ntrace:]
+        Pc.holds("%s: writes through updInstanceVars (State contract: an Instance-stage discrete variable; the State backs the stage up to Model and invalidates every lazy entry depending on a later stage)" % setter,
+                 z3.BoolVal(tr == [("updDiscreteVariable", impl.instanceVarsIx)] and st.stage == SIX["Model"]), function=HANDLEN + "::" + setter)
+        Pc.holds("%s: afterwards none of the four cache entries is valid (consequence of the State's invalidation, seen through the element's own is*Valid)" % setter,
+                 z3.BoolVal(_flags(impl, st) == (False, False, False, False)), function=HANDLEN + "::" + setter)
+        Pc.holds("%s: %s returns the new value, the other three parameters are unchanged, the handle is returned" % (setter, getter),
+                 z3.BoolVal(getattr(h, getter)(st) is newval and all(getattr(h, g)(st) is before[g] for g in getters if g != getter) and ret is h), function=HANDLEN + "::" + setter)
+        st.realize("Dynamics")
+        after = _evaluate(sc, st, impl, h, uf)
+        st_f, impl_f, h_f = fresh(**kw)
+        ref = _evaluate(sc, st_f, impl_f, h_f, uf)
+        _same(Pc, "%s: the next evaluation equals that of a fresh element built with the new parameter (every readable quantity)" % setter, after, ref, HANDLEN + "::" + setter)
+    # state changes other than parameters: which entries survive (depends-on stages of the allocation)
+    st, impl, h = fresh()
+    _evaluate(sc, st, impl, h, uf)
+    st.invalidate(SIX["Velocity"])            # State contract: updU invalidates Stage::Velocity
+    Pc.holds("after a velocity change (State invalidates Stage::Velocity): Position and PotentialEnergy stay valid, Velocity and Force entries are invalid",
+             z3.BoolVal(_flags(impl, st) == (True, True, False, False)), function=IMPLN + "::realizeTopology")
+    newV = {}
+    for b in set(sc.bodies):
+        if b.name != "G":
+            newV[b] = b.V
+            b.V = S.SpatialVec(v3("w_new_" + b.name), v3("v_new_" + b.name))
+    st.realize("Dynamics")
+    sc.counter.clear(); c0 = uf.calls
+    after = _evaluate(sc, st, impl, h, uf)
+    Pc.holds("after a velocity change the position level is not recomputed (the converter is not consulted again), the velocity level is (both body velocities requested once)",
+             z3.BoolVal(uf.calls == c0 and sc.counter.get("V", 0) == 2), function=FN_VEL)
+    st_f, impl_f, h_f = fresh()
+    ref = _evaluate(sc, st_f, impl_f, h_f, uf)
+    _same(Pc, "after a velocity change the next evaluation equals a fresh evaluation at the new velocities", after, ref, FN_VEL)
+    for b, V in newV.items():
+        b.V = V
+    for stage_name, what in (("Position", "position change (updQ)"), ("Time", "time change (updTime)"), ("Instance", "instance-variable change")):
+        st, impl, h = fresh()
+        _evaluate(sc, st, impl, h, uf)
+        st.invalidate(SIX[stage_name])
+        st.realize("Dynamics")
+        Pc.holds("after a %s (State invalidates Stage::%s) all four entries are invalid" % (what, stage_name), z3.BoolVal(_flags(impl, st) == (False, False, False, False)), function=IMPLN + "::realizeTopology")
+    _assumptions(ctx)
+    ctx.assume("LinearBushing parameter changes: WHICH invalidation is whose -- the State-based setters (setStiffness, setDamping, setFrameOnBody1, setFrameOnBody2) contain no invalidation call of their own: "
+               "they write through updInstanceVars = getForceSubsystem().updDiscreteVariable(state, instanceVarsIx). That this call backs the State up to Stage::Model and thereby invalidates every lazy cache entry whose "
+               "depends-on stage is Instance or later (the element allocates Position/PotentialEnergy with depends-on Stage::Position and Velocity/Force with depends-on Stage::Velocity, all computed-by Infinity) is the "
+               "STATE's contract (stand-in MState: stage versions + per-entry stamps as in StateImpl.h; proved on the State side by C18), assumed here. The ELEMENT's own part, proved here on the cut code: the stages "
+               "in the allocation table, each ensure* returns early only when its own is*Valid is true, recomputes otherwise from the current instance variables, marks exactly its own entry "
+               "(ensureForceCacheValid additionally fills and marks the PotentialEnergy entry with the same value ensurePotentialEnergyValid computes), and the getters read the entries they ensured")
+    ctx.assume("LinearBushing cache scenarios: the angle converter is an arbitrary deterministic function of the code's R_FM (fresh angle symbols per distinct matrix); default-parameter setters "
+               "(setDefault*, Topology stage) and the dissipated-energy integral (setDissipatedEnergy/getDissipatedEnergy, a z state variable) are not covered")
+    _not_decided(ctx)
+
+
+# ----------------------------------------------------------------------
+# native replay
+# ----------------------------------------------------------------------
+_EXE = {}
+
+
+def replay(ctx, ob):
+    """real Force::LinearBushing (Force_LinearBushing.cpp of the CURRENT tree compiled into the driver) on random systems against the
+    documented law, action-reaction, energy balance (finite differences) and the setter sequences; the verdict is taken on the
+    category of checks that corresponds to the failed obligation's unit"""
+    if _EXE.get("repo") != REPO or not os.path.exists(_EXE.get("exe", "")):
+        src = os.path.join(REPO, "Simbody/src")
+        _EXE["exe"] = native_build(ctx, "bushing_replay", os.path.join(VERIF, "replay/bushing_replay.cpp"), libs=True,
+                                   extra_srcs=[os.path.join(src, "Force_LinearBushing.cpp")], extra_inc=[src])
+        _EXE["repo"] = REPO
+    unit = getattr(ob, "unit", "") or ""
+    focus = "reaction" if unit.startswith("bushing.reaction") else "power" if unit.startswith("bushing.power") else "cache" if unit.startswith("bushing.cache") else "law" if unit.startswith("bushing.law") else "all"
+    if "filled cache entries" in (getattr(ob, "name", "") or ""):
+        focus = "cache"          # the real code consumed a cache entry it had not filled: a request-order defect
+    if focus == "power" and ob is not None and re.search(r"position cache|velocity cache|F_G|f_i ==|potential energy|power dissipation ==", ob.name or ""):
+        focus = "law"            # a lemma of the energy chain that is a clause of the documented law
+    rc, o, e, t = run([_EXE["exe"], str(ctx.seed), focus], 300)
+    return dict(cmd="bushing_replay %d %s (real Force::LinearBushing vs documented law / action-reaction / energy balance by finite differences / setter sequences)" % (ctx.seed, focus),
+                output=(o + e)[-3000:]), "REPRODUCED:" in o
+
+
+# ----------------------------------------------------------------------
+# arbitrary frame orientations: position stage for ALL 3x3 matrices + "later stages see the orientations only through the cache"
+# ----------------------------------------------------------------------
+class PoisonUsed(Exception):
+    pass
+
+
+class Poison:
+    """stands for a body / frame orientation or offset AFTER the position stage: it may be fetched (dead locals of the real code do that)
+    but any arithmetic with it raises"""
+    def __init__(self, what): self.what = what
+    def _boom(self, *a, **k): raise PoisonUsed(self.what)
+    __mul__ = __rmul__ = __add__ = __radd__ = __sub__ = __rsub__ = __mod__ = __rmod__ = __invert__ = __neg__ = __getitem__ = __call__ = __truediv__ = __iter__ = _boom
+
+
+class PoisonXF:
+    def __init__(self, what): self.what = what
+    def R(self): return Poison(self.what + ".R()")
+    def p(self): return Poison(self.what + ".p()")
+    def _boom(self, *a, **k): raise PoisonUsed(self.what)
+    __mul__ = __rmul__ = __invert__ = _boom
+
+
+def general_frames(Pv, bag, same_body=False, reaction=False):
+    """position stage with body and frame orientations as FREE 3x3 matrices (superset of all rotations), then the velocity and force stages
+    with the orientations poisoned; optionally the action-reaction identities with R_GF rewritten to the unit-quaternion chart"""
+    S.reset_env()
+    tag = "arbitrary frame orientations (%s)" % ("both frames on one body" if same_body else "two bodies")
+    A1, BF, BM = S.mat_sym("A1_", 3, 3), S.mat_sym("BF_", 3, 3), S.mat_sym("BM_", 3, 3)
+    A2 = A1 if same_body else S.mat_sym("A2_", 3, 3)
+    p1 = v3("gp1_"); p2 = p1 if same_body else v3("gp2_")
+    pF, pM = v3("gpF_"), v3("gpM_")
+    counter = {}
+    b1 = MBody("B1", XF(A1, p1), S.SpatialVec(v3("gw1_"), v3("gv1_")), counter)
+    b2 = b1 if same_body else MBody("B2", XF(A2, p2), S.SpatialVec(v3("gw2_"), v3("gv2_")), counter)
+    bodies = [MBody("G", XF(), S.SpatialVec(Vec(0, 0, 0), Vec(0, 0, 0)), counter), b1] + ([] if same_body else [b2])
+    holder = Bag()
+    holder.bag, holder.bodies, holder.ix1, holder.ix2 = bag, bodies, 1, (1 if same_body else 2)
+    holder.X_B1F, holder.X_B2M = XF(BF, pF), XF(BM, pM)
+    holder.k, holder.c = Vec(*[z3.Real("gk%d" % i) for i in range(6)]), Vec(*[z3.Real("gc%d" % i) for i in range(6)])
+    holder.fresh_pc, holder.fresh_vc = Scen.fresh_pc, Scen.fresh_vc
+    st, impl, h = Scen.make_element(holder, install=False)
+    uf = UFAngles()
+    RotM.angles_of = uf
+    try:
+        st.realize("Dynamics")
+        impl.ensurePositionCacheValid(st)
+    finally:
+        RotM.angles_of = None
+    pc = impl.getPositionCache(st)
+    G = A1 * BF; M = A2 * BM
+    pGF = p1 + A1 * pF; pGM = p2 + A2 * pM
+    pFM = (~G) * (pGM - pGF)
+    for nm, got, exp in (("X_GF == X_GB1 o X_B1F (rotation)", pc.X_GF.R(), G), ("X_GF == X_GB1 o X_B1F (origin)", pc.X_GF.p(), pGF),
+                         ("X_GM == X_GB2 o X_B2M (rotation)", pc.X_GM.R(), M), ("X_GM == X_GB2 o X_B2M (origin)", pc.X_GM.p(), pGM),
+                         ("X_FM.R == ~R_GF R_GM", pc.X_FM.R(), (~G) * M), ("X_FM.p == ~R_GF (p_GM - p_GF)", pc.X_FM.p(), pFM),
+                         ("p_B1F_G == R_GB1 p_B1F", pc.p_B1F_G, A1 * pF), ("p_B2M_G == R_GB2 p_B2M", pc.p_B2M_G, A2 * pM),
+                         ("p_FM_G == R_GF p_FM", pc.p_FM_G, G * pFM), ("q[3:6] == p_FM", pc.q.getSubVec(3, 3), pFM)):
+        Pv.eq("%s: position cache %s, for ALL 3x3 matrices" % (tag, nm), plain(got), plain(exp), [], function=FN_POS)
+    key = tuple(val(x).sexpr() for x in S.elements(pc.X_FM.R()))
+    Pv.holds("%s: q[0:3] is what the converter returns for the code's R_FM (consulted exactly once)" % tag,
+             z3.BoolVal(uf.calls == 1 and key in uf.memo and all(z3.eq(val(a), val(b)) for a, b in zip(pc.q.getSubVec(3, 0), uf.memo[key]))), function=FN_POS)
+    # p_FM_G is the vector OF -> OM in G once R_GF is a rotation (product of the two rotations R_GB1, R_B1F; charted by a unit quaternion)
+    e = Vec(*[z3.Real("ge%d" % i) for i in range(4)]); Rg = Rquat(e); unit = [val(e.normSqr()) == 1]
+    Pv.guard("%s unit quaternion" % tag, unit)
+    Pv.spheres, Pv.circles = [[val(x) for x in e]], []
+    nFM = "%s: p_FM_G == p_GM - p_GF when R_GF = R_GB1 R_B1F is a rotation (its entries rewritten to R(e), |e| = 1)" % tag
+    Pv.eq(nFM, plain(pc.p_FM_G), pGM - pGF, unit, rw=[(G, Rg)], by=["closure of the rotations under products, surjectivity of the quaternion chart (assumed, textbook / C27)"], function=FN_POS)
+    # later stages: orientations and offsets poisoned
+    iv = impl.getInstanceVars(st)
+    iv.X_B1F, iv.X_B2M = PoisonXF("X_B1F"), PoisonXF("X_B2M")
+    for b in set(bodies):
+        b.X = PoisonXF("X_GB of " + b.name)
+    z = lambda: S.SpatialVec(Vec(0, 0, 0), Vec(0, 0, 0))
+    bf = [z() for _ in bodies]
+    used = None
+    RotM.angles_of = uf
+    try:
+        impl.calcForce(st, bf, [], None)
+        impl.calcPotentialEnergy(st)
+    except PoisonUsed as ex:
+        used = str(ex)
+    finally:
+        RotM.angles_of = None
+    Pv.holds("%s: the velocity and force stages use the body poses and the frames X_B1F, X_B2M only through the position cache%s" % (tag, "" if used is None else " -- USED: " + used),
+             z3.BoolVal(used is None and uf.calls == 1), function=FN_FRC)
+    if reaction and used is None:
+        fc = impl.getForceCache(st)
+        op = [plain(fc.F_GM[0]), plain(fc.F_GM[1])]
+        origin = {1: p1, 2: p2}
+        f = Vec(0, 0, 0); m = Vec(0, 0, 0)
+        for ix in range(1, len(bodies)):
+            Fv = plain(bf[ix]); f = f + Fv[1]; m = m + Fv[0] + cross(origin[ix], Fv[1])
+        FN = IMPLN + "::calcForce"
+        Pv.eq("LinearBushing (%s): total force on all bodies == 0" % tag, f, Vec(0, 0, 0), [], opaque=op, function=FN)
+        Pv.eq("LinearBushing (%s): total moment about the Ground origin == 0" % tag, m, Vec(0, 0, 0), unit,
+              rw=[(plain(pc.p_FM_G), pGM - pGF)], by=[nFM], opaque=op, function=FN)
+        if same_body:
+            Pv.eq("LinearBushing (%s): net wrench applied to the body vanishes identically" % tag, plain(bf[1]), S.SpatialVec(Vec(0, 0, 0), Vec(0, 0, 0)), unit,
+                  rw=[(plain(pc.p_FM_G), pGM - pGF)], by=[nFM], opaque=op, function=FN)
